@@ -381,6 +381,8 @@ def slice_C01(ctx):
     # (a') the grammar of the end-to-end theorems
     for d, fl, pat, inp, _ in grammar_tree_stream(ctx, ctx.n(6000, 60000)):
         tuples.append((d, fl, pat, inp, "", "grammar"))
+    for d, fl, pat, inp, _ in altfollow_stream(ctx, ctx.n(2000, 20000)):
+        tuples.append((d, fl, pat, inp, "", "altfollow"))
     # (b) seeded random structured patterns incl. back-references
     for d, fl, pat, inp, ast in random_stream(ctx, ctx.n(24000, 240000), shapes=0.3, per_pattern=5):
         tuples.append((d, fl, pat, inp, "", "random"))
@@ -828,6 +830,25 @@ def overlap_prefix_stream(ctx, count, repl=""):
     return out
 
 
+def altfollow_stream(ctx, count, repl=""):
+    """a repeat of a character followed by a group of single-character alternatives, one of which - not
+    the first - is the repeated character: x*(?:a|x)y on xxy (the repeat must give a character back
+    to a later alternative); own generator state"""
+    rng = random.Random(ctx.seed * 86028157 + 29)
+    out = []
+    while len(out) < count:
+        x, a_, y = rng.sample("abcxy", 3)
+        members = [a_] + ([rng.choice("dz")] if rng.random() < 0.3 else []) + [x]
+        rng.shuffle(members)
+        if members[0] == x:
+            members.reverse()
+        q = rng.choice(["*", "+", "{0,2}", "{1,}", "*?"])
+        pat = rng.choice(["", "^", "c"]) + x + q + rng.choice(["(?:%s)", "(%s)"]) % "|".join(members) + rng.choice([y, y + "$", ""])
+        for inp in (x * 2 + y, x + y, x * 3, a_ + y, x + a_ + y, "c" + x * 2 + y, x):
+            out.append(("xpath", rng.choice(["", "", "i"]), pat, inp, repl))
+    return out
+
+
 def revisit_stream(ctx, count):
     """a bounded min-0 repeat over a variable-length body that is entered more than once at the same
     offset (an optional or repeated term before it gives the position back) and must backtrack
@@ -985,6 +1006,26 @@ def grammar_stream(ctx, dialects):
     for p in special:
         for d in dialects:
             tuples.append((d, "", p, "", "", "special"))
+    # back-references with two digits: the number is extended digit by digit as long as it names a group
+    # opened so far, wherever the reference stands - also inside a still-open group whose own number
+    # is the first digit (own generator state)
+    rng_b = random.Random(ctx.seed * 15485867 + 7)
+    for _ in range(ctx.n(150, 1500)):
+        k = rng_b.randint(9, 13)
+        inner = "".join("(%s)" % rng_b.choice("abc") for _ in range(k))
+        n_ref = rng_b.randint(1, k + 3)
+        ref = "\\%d" % n_ref
+        shape = rng_b.random()
+        if shape < 0.4:
+            p_ = "(x" + inner + ref + ")"            # inside open group 1; inner groups are 2..k+1
+        elif shape < 0.6:
+            p_ = "(x)(y" + inner + ref + ")"          # inside open group 2
+        elif shape < 0.8:
+            p_ = inner + ref
+        else:
+            p_ = "(" + inner + ")" + ref
+        for d in dialects:
+            tuples.append((d, "", p_, "", "", "backref-digits"))
     return tuples
 
 
@@ -1045,6 +1086,7 @@ def slice_C08(ctx):
     # the grammar of the end-to-end theorems (proved for the hook constructor: the shortcuts must not matter)
     tuples += grammar_tree_stream(ctx, ctx.n(4000, 40000), "[$1]")
     tuples += overlap_prefix_stream(ctx, ctx.n(2000, 20000), "<$0>")
+    tuples += altfollow_stream(ctx, ctx.n(2000, 20000), "<$0>")
     # shapes that trigger each shortcut
     # (pattern text, a text it matches)
     heads = [("ab", "ab"), ("a", "a"), ("[ab]", "b"), ("\\d", "1"), ("^", ""), ("^a", "a"), (".", "b"), ("(a)", "a"),
@@ -2119,6 +2161,16 @@ def slice_C19(ctx):
                                               flagsets=["", "i"], alphabets=["ab", "aAb", "abc"], per_pattern=5, size=(2, 8), groups=0.3, brefs=0.35):
         if gen.has(ast, {"bref"}):
             tuples.append((d, fl, pat, inp, "<$1>"))
+    # flag i compares a back-reference with its group case-blind - for every cased letter, not the
+    # ASCII ones only (own generator state)
+    rng_n = random.Random(ctx.seed * 32452867 + 19)
+    pairs = ["\u00e9\u00c9", "\u0434\u0414", "\u03c3\u03a3", "\u00fc\u00dc", "kK", "\U00010428\U00010400"]
+    for _ in range(ctx.n(300, 3000)):
+        lo, up = rng_n.choice(pairs)
+        x = rng_n.choice([lo, up])
+        pat_ = rng_n.choice(["^(%s)\\1$", "(%s)\\1", "(%s+)-\\1", "(%sa|%s)\\1", "([%s])b\\1"]).replace("%s", x)
+        for inp in (lo + up, up + lo, lo + lo, up + up, lo + "-" + up, up + "b" + lo, lo + "a" + up + "a", "a" + lo + up + "a", lo):
+            tuples.append(("xpath", rng_n.choice(["i", "i", ""]), pat_, inp, "<$1>"))
     cases = mk_cases(tuples, "mra")
     code, model, dis = run_slice(cases)
     spec = spec_match(cases)
@@ -2326,6 +2378,33 @@ def slice_C20(ctx):
                 pairs.append((str(cid), str(cid + 1), law, order_ok))
                 cid += 2
             laws[law] += 1
+    # fourth stream (own generator state): a repeat of a character followed by a class of single
+    # characters, one of which - not the first - is the repeated one, against the alternation spelling
+    # of that class ([xy] = (?:x|y)) and the distributed spelling ((?:r|s)t = rt|st): what the
+    # optimiser concludes about the alternation's first characters must not depend on the spelling
+    rng_a = random.Random(ctx.seed * 86028157 + 23)
+    for _ in range(ctx.n(500, 5000)):
+        x, a_, y = rng_a.sample("abcxy", 3)
+        members = [a_] + ([rng_a.choice("dz")] if rng_a.random() < 0.3 else []) + [x]
+        rng_a.shuffle(members)
+        if members[0] == x:
+            members.reverse()
+        q = rng_a.choice(["*", "+", "{0,2}", "{1,}", "*?"])
+        pre = rng_a.choice(["", "^", "c"])
+        post = rng_a.choice([y, y + "$", ""])
+        grp = rng_a.choice(["(?:%s)", "(%s)"])
+        p_cls = pre + x + q + "[" + "".join(members) + "]" + post
+        p_alt = pre + x + q + grp % "|".join(members) + post
+        p_dist = pre + "(?:" + "|".join(x + q + m + post for m in members) + ")"
+        fl = rng_a.choice(["", "", "i"])
+        for inp in (x * 2 + y, x + y, x * 3, a_ + y, x + a_ + y, "c" + x * 2 + y, x, ""):
+            for pat2, law in ((p_alt, "[xy]=(?:x|y) after a repeat"), (p_dist, "(?:r|s)t=rt|st after a repeat")):
+                a = Case(cid, "xpath", fl, p_cls, inp, "<$0>", "mra", tag=law)
+                b = Case(cid + 1, "xpath", fl, pat2, inp, "<$0>", "mra", tag=law)
+                cases += [a, b]
+                pairs.append((str(cid), str(cid + 1), law, False))
+                cid += 2
+        laws["after a repeat"] += 1
     code, model, dis = run_slice(cases)
     spec = spec_match([c for c in cases])
     byid = {c.cid: c for c in cases}
